@@ -42,6 +42,8 @@ type c02Case struct {
 	Scale  int       `json:"scale"` // one model line = Scale real lines (+ jitter), one model read = Scale copy iterations
 	Lines  [][]int   `json:"lines"` // real line counts per command/file (computed by the driver)
 	NoFinalNL bool   `json:"nofinalnl"` // the files end without a newline
+	DrainUs   int    `json:"drainus"`   // after the behaviour: a consumer that needs this many microseconds per message (the
+	                                    // readers stay ahead of it, their queues are full when they reach the end of the file)
 }
 
 type c02Result struct {
@@ -217,6 +219,9 @@ func c02Run(c c02Case, base string) (res c02Result) {
 				idle++ // Read returns 0 bytes after waiting a second for something to send
 			} else {
 				idle = 0
+			}
+			if c.DrainUs > 0 {
+				time.Sleep(time.Duration(c.DrainUs) * time.Microsecond)
 			}
 		}
 	})
